@@ -49,7 +49,10 @@ func (x *Exec) assign(lhs ast.Expr, v Val, st *State, env *Env) {
 			panic(unsupported("assignment to unknown " + n.Name))
 		}
 		if o, ok := obj.(*types.Var); ok && o.Pkg() != nil && o.Parent() == o.Pkg().Scope() {
-			panic(unsupported("assignment to package-level variable " + n.Name))
+			if x.con == nil || !x.con.Entry {
+				panic(unsupported("assignment to package-level variable " + n.Name))
+			}
+			x.c.notes[x.fi.Key+": package-level variables are part of the state of this entry closure (arbitrary at entry: set by the flag parser)"] = true
 		}
 		v = x.coerce(v, obj.Type())
 		if v.Nil {
@@ -276,7 +279,7 @@ func (x *Exec) execStmt(s ast.Stmt, st *State, env *Env) Flow {
 		return Flow{normal: st}
 	case *ast.IfStmt:
 		if n.Init != nil {
-			f := x.execStmt(n.Init, st, env)
+			f := x.execStmtWithPoints(n.Init, st, env)
 			st = f.normal
 		}
 		cond := x.defaultType(x.eval(n.Cond, st, env)).T
@@ -367,6 +370,23 @@ func (x *Exec) execStmt(s ast.Stmt, st *State, env *Env) Flow {
 		}
 		panic(unsupported(fmt.Sprintf("statement %T (concurrency / defer)", s)))
 	case *ast.DeferStmt:
+		if x.con != nil && x.con.Entry {
+			if len(x.loopStack) > 0 {
+				panic(unsupported("defer inside a loop"))
+			}
+			x.c.notes[x.fi.Key+": deferred calls run (last first) at every return on the paths that executed their defer statement; their arguments are evaluated at that return, not at the defer statement"] = true
+			st.gh[fmt.Sprintf("defer:%d", n.Pos())] = Val{T: "true", Ty: tBool}
+			// variables visible here may be out of scope at the return where the call runs: remember their values
+			if x.deferVars == nil {
+				x.deferVars = map[token.Pos]map[types.Object]Val{}
+			}
+			snap := map[types.Object]Val{}
+			for k, v := range st.vars {
+				snap[k] = v
+			}
+			x.deferVars[n.Pos()] = snap
+			return Flow{normal: st}
+		}
 		panic(unsupported(fmt.Sprintf("statement %T (concurrency / defer)", s)))
 	}
 	panic(unsupported(fmt.Sprintf("statement %T", s)))
@@ -579,6 +599,73 @@ func (x *Exec) execSwitch(n *ast.SwitchStmt, st *State, env *Env) Flow {
 }
 
 func (x *Exec) execReturn(n *ast.ReturnStmt, st *State, env *Env) {
+	x.execReturn0(n, st, env)
+	// `after call:` points of calls made inside the return statement itself run once its results are evaluated
+	for _, a := range x.anchors[n] {
+		if strings.HasPrefix(a, "call:") {
+			x.runPoints("after", a, st, n.Pos())
+		}
+	}
+	if x.con == nil || !x.con.Entry {
+		return
+	}
+	// entry closures: run the deferred calls that precede this return, with the named results visible to them
+	sig := x.fi.Sig
+	for i := 0; i < sig.Results().Len(); i++ {
+		if r := sig.Results().At(i); r.Name() != "" && r.Name() != "_" {
+			if v, ok := st.vars[x.results[i]]; ok {
+				st.vars[r] = v
+			}
+		}
+	}
+	var ds []*ast.DeferStmt
+	ast.Inspect(x.fi.Body, func(nd ast.Node) bool {
+		if fl, ok := nd.(*ast.FuncLit); ok && fl != x.fi.Lit {
+			return false
+		}
+		if d, ok := nd.(*ast.DeferStmt); ok && d.Pos() < n.Pos() {
+			ds = append(ds, d)
+		}
+		return true
+	})
+	for i := len(ds) - 1; i >= 0; i-- {
+		flag, ok := st.gh[fmt.Sprintf("defer:%d", ds[i].Pos())]
+		if !ok || flag.T == "false" {
+			continue // its defer statement was not executed on this path
+		}
+		run := func(s *State) {
+			for k, v := range x.deferVars[ds[i].Pos()] {
+				if _, ok := s.vars[k]; !ok {
+					s.vars[k] = v
+				}
+			}
+			for _, a := range x.anchors[ds[i]] {
+				x.runPoints("before", a, s, ds[i].Pos())
+			}
+			x.eval(ds[i].Call, s, env)
+		}
+		if flag.T == "true" {
+			run(st)
+			continue
+		}
+		on, off := st.clone(), st.clone()
+		on.pc = x.namePC(and(st.pc, flag.T))
+		off.pc = x.namePC(and(st.pc, not(flag.T)))
+		run(on)
+		m := x.merge(on, off)
+		m.pc = st.pc
+		*st = *m
+	}
+	for i := 0; i < sig.Results().Len(); i++ {
+		if r := sig.Results().At(i); r.Name() != "" && r.Name() != "_" {
+			if v, ok := st.vars[r]; ok {
+				st.vars[x.results[i]] = v
+			}
+		}
+	}
+}
+
+func (x *Exec) execReturn0(n *ast.ReturnStmt, st *State, env *Env) {
 	sig := x.fi.Sig
 	if len(n.Results) == 0 {
 		// naked return: named results keep their current values
